@@ -11,6 +11,7 @@ package main
 import (
 	"fmt"
 	"go/types"
+	"strings"
 )
 
 func rvOf(v value) rvalue { return v.(structure)[0].(rvalue) }
@@ -227,3 +228,156 @@ func rtypeCallMore(i *Interp, name string, rt rtype, args []value) (value, bool)
 }
 
 var _ = fmt.Sprint
+
+// validateRequired is the part of the go-playground validator that
+// utils.Validate relies on for control flow in goflow: `validate:"required"`
+// (a zero value fails) on the fields of a struct, of its embedded and nested
+// structs and of pointers to structs, and of slice elements under `dive`.
+// Every other rule (uuid4, min, http_method, …) stays cut.
+func (i *Interp) validateRequired(t types.Type, v value, path string, depth int) string {
+	if depth > 12 {
+		return ""
+	}
+	switch u := t.Underlying().(type) {
+	case *types.Pointer:
+		p, _ := v.(*value)
+		if p == nil {
+			return ""
+		}
+		return i.validateRequired(u.Elem(), *p, path, depth+1)
+	case *types.Interface:
+		it, _ := v.(iface)
+		if it.t == nil {
+			return ""
+		}
+		return i.validateRequired(it.t, it.v, path, depth+1)
+	case *types.Struct:
+		sv, ok := v.(structure)
+		if !ok {
+			return ""
+		}
+		for k := 0; k < u.NumFields(); k++ {
+			f := u.Field(k)
+			if !f.Exported() && !f.Embedded() {
+				continue
+			}
+			tag := reflectTagGet(u.Tag(k), "validate")
+			name := reflectTagGet(u.Tag(k), "json")
+			if c := strings.IndexByte(name, ','); c >= 0 {
+				name = name[:c]
+			}
+			if name == "" || name == "-" {
+				name = f.Name()
+			}
+			fp := name
+			if path != "" && !f.Embedded() {
+				fp = path + "." + name
+			} else if f.Embedded() {
+				fp = path
+			}
+			rules := strings.Split(tag, ",")
+			required, dive, omitempty := false, false, false
+			for _, r := range rules {
+				switch r {
+				case "required":
+					required = true
+				case "dive":
+					dive = true
+				case "omitempty":
+					omitempty = true
+				}
+			}
+			zeroV := isZeroForValidate(f.Type(), sv[k])
+			if required && zeroV {
+				return "field '" + fp + "' is required"
+			}
+			if omitempty && zeroV {
+				continue
+			}
+			if tag == "-" {
+				continue
+			}
+			switch ft := f.Type().Underlying().(type) {
+			case *types.Struct, *types.Pointer, *types.Interface:
+				if msg := i.validateRequired(f.Type(), sv[k], fp, depth+1); msg != "" {
+					return msg
+				}
+			case *types.Slice:
+				if dive {
+					if s, ok := sv[k].([]value); ok {
+						for n, e := range s {
+							if msg := i.validateRequired(ft.Elem(), e, fmt.Sprintf("%s[%d]", fp, n), depth+1); msg != "" {
+								return msg
+							}
+						}
+					}
+				}
+			}
+		}
+	}
+	return ""
+}
+
+func reflectTagGet(tag, key string) string {
+	// struct tags of goflow are conventional: key:"value" pairs separated by spaces
+	for tag != "" {
+		tag = strings.TrimLeft(tag, " ")
+		c := strings.IndexByte(tag, ':')
+		if c < 0 || c+1 >= len(tag) || tag[c+1] != '"' {
+			return ""
+		}
+		name := tag[:c]
+		rest := tag[c+2:]
+		e := strings.IndexByte(rest, '"')
+		if e < 0 {
+			return ""
+		}
+		if name == key {
+			return rest[:e]
+		}
+		tag = rest[e+1:]
+	}
+	return ""
+}
+
+func isZeroForValidate(t types.Type, v value) bool {
+	switch x := v.(type) {
+	case nil:
+		return true
+	case string:
+		return x == ""
+	case sstring:
+		return len(x) == 0
+	case bool:
+		return !x
+	case *value:
+		return x == nil
+	case []value:
+		return x == nil
+	case *smap:
+		return x == nil
+	case iface:
+		return x.t == nil
+	case *Term:
+		return false // (a symbolic scalar: not decided here, treated as set)
+	case structure:
+		st, ok := t.Underlying().(*types.Struct)
+		if !ok {
+			return false
+		}
+		for k := range x {
+			if !isZeroForValidate(st.Field(k).Type(), x[k]) {
+				return false
+			}
+		}
+		return true
+	case float64:
+		return x == 0
+	case float32:
+		return x == 0
+	}
+	if u, ok := toU64(v); ok {
+		return u == 0
+	}
+	return false
+}
